@@ -553,126 +553,251 @@ def _listing_complete(prog, chk, V7):
         raise AnalysisBroken('V7: the column listing helper was not found')
 
 
-def _verify_translates(prog, chk, V9):
-    n = 0
-    for f in prog.functions.values():
-        if f.is_pattern or f.body is None or not prog.in_repo(f.file) or '/schema/' in (f.file or ''):
-            continue
-        parent = {}
-        for x in walk(f.body):
-            for c in children(x):
-                parent[id(c)] = x
-        for call in walk(f.body):
-            if call.get('kind') != 'CXXMemberCallExpr' or strip(children(call)[0]).get('name') != 'verify':
-                continue
-            recv = children(strip(children(call)[0]))
-            rt = (strip(recv[0]).get('type') or '') if recv else ''
-            if 'schema_creator_validator' not in rt:
-                continue
-            n += 1
-            chk.analysed(f)
-            short = f.qualname.replace('djinterop::engine::', '')
-            ok = False
-            x = call
-            while id(x) in parent:
-                x = parent[id(x)]
-                if x.get('kind') != 'CXXTryStmt':
+class ValidatorCalls:
+    """Where the library is handed to a validator: the calls `<validator>-><method>(db)` (method = verify / create,
+    receiver a schema_creator_validator) in the functions of the repository other than the schema classes' own
+    members, and - transitively - the calls of forwarding helpers.  A function is a forwarding helper when it hands
+    one of its own parameters on as the database argument (`void verify_schema(schema, db) { make(schema)->verify(db); }`):
+    wherever it is defined and whatever it is called, a call of it stands for the validator call, and the properties
+    of the enclosing function are judged at each of its callers.
+
+    sites[f.key]   [(call node, callee Function or None for the member call itself)]
+    fwd[f.key]     indices of the parameters of f handed on as the database
+    """
+
+    def __init__(self, prog, cg, method):
+        base = schemas.BASE
+        own = {base} | set(prog.all_derived(base))
+        self.prog, self.cg, self.method = prog, cg, method
+        self.funcs = {f.key: f for f in prog.functions.values()
+                      if not f.is_pattern and f.body is not None and prog.in_repo(f.file) and f.cls not in own}
+        self.own = own
+        self.sites = {}
+        self.fwd = {}
+        self._parents = {}
+        for f in self.funcs.values():
+            pid = {p_.get('id'): i for i, p_ in enumerate(f.params)}
+            for call in walk(f.body):
+                if not self.is_member_call(call):
                     continue
-                for h in children(x)[1:]:
-                    if h.get('kind') != 'CXXCatchStmt':
+                self.sites.setdefault(f.key, []).append((call, None))
+                args = children(call)[1:]
+                i = self._param_index(args[0], pid) if args else None
+                if i is not None:
+                    self.fwd.setdefault(f.key, set()).add(i)
+        self.direct = set(self.sites)
+        have = {}
+        changed = bool(self.fwd)
+        while changed:
+            changed = False
+            for f in self.funcs.values():
+                pid = None
+                for e in cg.edges(f):
+                    if e.node.get('kind') not in ('CallExpr', 'CXXMemberCallExpr'):
                         continue
-                    hv = [c for c in children(h) if c.get('kind') == 'VarDecl']
-                    ht = (hv[0].get('type') if hv else '...') or ''
-                    catches = 'sqlite_exception' in ht or ht == '...' or 'std::exception' in ht
-                    throws = any(y.get('kind') == 'CXXThrowExpr' and children(y) and
-                                 'database_inconsistency' in (strip(children(y)[0]).get('type') or '')
-                                 for y in walk(h))
-                    if catches and throws:
-                        ok = True
-            if ok:
-                chk.ok(V9, '%s converts SQLite errors of the validator to database_inconsistency' % short, locstr(call))
-            else:
-                chk.violation(V9, '%s|sqlite error escapes verify' % short, locstr(call),
-                              '%s calls the validator outside any handler that turns sqlite::sqlite_exception into '
-                              'database_inconsistency: dropping List.title (a column the Crate view uses) makes PRAGMA '
-                              'table_info(\'Crate\') fail, and verify() throws "SQL logic error" instead of reporting '
-                              'the deviation' % short)
+                    for t in e.targets:
+                        if t.key == f.key or t.key not in self.fwd or t.key not in self.funcs:
+                            continue
+                        if (f.key, id(e.node), t.key) not in have:
+                            have[(f.key, id(e.node), t.key)] = 1
+                            self.sites.setdefault(f.key, []).append((e.node, t))
+                            changed = True
+                        if pid is None:
+                            pid = {p_.get('id'): i for i, p_ in enumerate(f.params)}
+                        args = children(e.node)[1:]
+                        for i in sorted(self.fwd[t.key]):
+                            j = self._param_index(args[i], pid) if i < len(args) else None
+                            if j is not None and j not in self.fwd.get(f.key, ()):
+                                self.fwd.setdefault(f.key, set()).add(j)
+                                changed = True
+
+    def is_member_call(self, call):
+        if call.get('kind') != 'CXXMemberCallExpr' or not children(call):
+            return False
+        callee = strip(children(call)[0])
+        if callee.get('name') != self.method:
+            return False
+        recv = children(callee)
+        rt = (strip(recv[0]).get('type') or '') if recv else ''
+        return 'schema_creator_validator' in rt or self.cg.record_of_type(rt) in self.own
+
+    @staticmethod
+    def _param_index(arg, pid):
+        a = strip(arg, explicit=True)
+        for _ in range(3):
+            if a.get('kind') == 'CallExpr' and len(children(a)) == 2 and \
+                    (strip(children(a)[0]).get('referencedDecl') or {}).get('name') in ('move', 'forward'):
+                a = strip(children(a)[1], explicit=True)
+        if a.get('kind') == 'DeclRefExpr':
+            return pid.get((a.get('referencedDecl') or {}).get('id'))
+        return None
+
+    def callers(self, key):
+        return [(self.funcs[k], call) for k, ss in self.sites.items() for call, t in ss
+                if t is not None and t.key == key]
+
+    def all_sites(self):
+        """(function, call, callee) for every call standing for the validator call, at every level."""
+        for k in self.sites:
+            for call, t in self.sites[k]:
+                yield self.funcs[k], call, t
+
+    def top_sites(self):
+        """The sites at which the chain of forwarding helpers ends: in a function that does not receive the
+        database from its caller (or that nothing in the repository calls)."""
+        for f, call, t in self.all_sites():
+            if f.key in self.fwd and self.callers(f.key):
+                continue
+            yield f, call, t
+
+    def parents(self, f):
+        pm = self._parents.get(f.key)
+        if pm is None:
+            pm = {}
+            for x in walk(f.body):
+                for c in children(x):
+                    pm[id(c)] = x
+            self._parents[f.key] = pm
+        return pm
+
+    def holds_down(self, f, call, t, pred, seen=()):
+        """pred(f, call) holds at this site, or at every site of the helper called here (and so on down)."""
+        if pred(f, call):
+            return True
+        if t is None or t.key in seen:
+            return False
+        below = self.sites.get(t.key, [])
+        return bool(below) and all(self.holds_down(t, c2, t2, pred, tuple(seen) + (f.key,)) for c2, t2 in below)
+
+    def reaches(self, f, pred, seen=()):
+        """pred(g) holds for f or for a helper through which f hands the library on."""
+        if pred(f):
+            return True
+        return any(t is not None and t.key not in seen and self.reaches(t, pred, tuple(seen) + (f.key,))
+                   for call, t in self.sites.get(f.key, []))
+
+
+_VC = {}
+
+
+def validator_calls(prog, method):
+    from .. import callgraph as _cgm
+    k = (id(prog), method)
+    if k not in _VC:
+        _VC[k] = ValidatorCalls(prog, _cgm.get(prog), method)
+    return _VC[k]
+
+
+def _verify_translates(prog, chk, V9):
+    vc = validator_calls(prog, 'verify')
+
+    def translated(f, call):
+        parent = vc.parents(f)
+        x = call
+        while id(x) in parent:
+            x = parent[id(x)]
+            if x.get('kind') != 'CXXTryStmt':
+                continue
+            for h in children(x)[1:]:
+                if h.get('kind') != 'CXXCatchStmt':
+                    continue
+                hv = [c for c in children(h) if c.get('kind') == 'VarDecl']
+                ht = (hv[0].get('type') if hv else '...') or ''
+                catches = 'sqlite_exception' in ht or ht == '...' or 'std::exception' in ht
+                throws = any(y.get('kind') == 'CXXThrowExpr' and children(y) and
+                             'database_inconsistency' in (strip(children(y)[0]).get('type') or '')
+                             for y in walk(h))
+                if catches and throws:
+                    return True
+        return False
+
+    n = 0
+    # judged where the chain of forwarding helpers ends (the function that owns the library); the handler may sit
+    # there or around the call at any level below it (inside the helper that makes the validator and calls it)
+    for f, call, t in vc.top_sites():
+        n += 1
+        chk.analysed(f)
+        short = f.qualname.replace('djinterop::engine::', '')
+        if vc.holds_down(f, call, t, translated):
+            chk.ok(V9, '%s converts SQLite errors of the validator to database_inconsistency' % short, locstr(call))
+        else:
+            chk.violation(V9, '%s|sqlite error escapes verify' % short, locstr(call),
+                          '%s calls the validator outside any handler that turns sqlite::sqlite_exception into '
+                          'database_inconsistency: dropping List.title (a column the Crate view uses) makes PRAGMA '
+                          'table_info(\'Crate\') fail, and verify() throws "SQL logic error" instead of reporting '
+                          'the deviation' % short)
     if n < 2:
         raise AnalysisBroken('V9: fewer than two calls of a validator found (%d)' % n)
 
 
 def _verify_unconditional(prog, chk, rid):
+    vc = validator_calls(prog, 'verify')
     n = 0
-    for f in prog.functions.values():
-        if f.is_pattern or f.body is None or not prog.in_repo(f.file) or '/schema/' in (f.file or ''):
-            continue
-        parent = {}
-        order = {}
-        for i, x in enumerate(walk(f.body)):
-            order[id(x)] = i
-            for c in children(x):
-                parent[id(c)] = x
-        for call in walk(f.body):
-            if call.get('kind') != 'CXXMemberCallExpr' or strip(children(call)[0]).get('name') != 'verify':
-                continue
-            recv = children(strip(children(call)[0]))
-            rt = (strip(recv[0]).get('type') or '') if recv else ''
-            if 'schema_creator_validator' not in rt:
-                continue
-            n += 1
-            short = f.qualname.replace('djinterop::engine::', '')
-            why = None
-            x = call
-            while id(x) in parent:
-                child, x = x, parent[id(x)]
-                k = x.get('kind')
-                if k in ('IfStmt', 'SwitchStmt', 'ConditionalOperator', 'CaseStmt', 'DefaultStmt') or \
-                        (k in ('WhileStmt', 'ForStmt', 'CXXForRangeStmt') and child is children(x)[-1]) or \
-                        k == 'LambdaExpr' or k == 'CXXCatchStmt':
-                    why = 'the call sits under a %s' % k
-                    break
-                if k == 'BinaryOperator' and x.get('opcode') in ('&&', '||') and child is not children(x)[0]:
-                    why = 'the call is the right operand of %s' % x['opcode']
-                    break
-            if why is None:
-                for r in walk(f.body):
-                    if r.get('kind') == 'ReturnStmt' and order[id(r)] < order[id(call)]:
-                        y, in_lambda = r, False
-                        while id(y) in parent:
-                            y = parent[id(y)]
-                            if y.get('kind') == 'LambdaExpr':
-                                in_lambda = True
-                        if not in_lambda:
-                            why = 'a return statement at %s precedes the call' % locstr(r)
-                            break
-            if why is None:
-                chk.ok(rid, '%s hands the library to the validator unconditionally' % short, locstr(call))
-            else:
-                chk.violation(rid, '%s|validator call can be skipped' % short, locstr(call),
-                              '%s: %s: verify() can return normally without having examined the library as it is now' % (
-                                  short, why))
+    orders = {}
+    # every level counts: the validator call in the helper and the call of the helper in each of its callers
+    for f, call, t in vc.all_sites():
+        parent = vc.parents(f)
+        order = orders.get(f.key)
+        if order is None:
+            order = orders[f.key] = {id(x): i for i, x in enumerate(walk(f.body))}
+        n += 1
+        chk.analysed(f)
+        short = f.qualname.replace('djinterop::engine::', '')
+        why = None
+        x = call
+        while id(x) in parent:
+            child, x = x, parent[id(x)]
+            k = x.get('kind')
+            if k in ('IfStmt', 'SwitchStmt', 'ConditionalOperator', 'CaseStmt', 'DefaultStmt') or \
+                    (k in ('WhileStmt', 'ForStmt', 'CXXForRangeStmt') and child is children(x)[-1]) or \
+                    k == 'LambdaExpr' or k == 'CXXCatchStmt':
+                why = 'the call sits under a %s' % k
+                break
+            if k == 'BinaryOperator' and x.get('opcode') in ('&&', '||') and child is not children(x)[0]:
+                why = 'the call is the right operand of %s' % x['opcode']
+                break
+        if why is None:
+            for r in walk(f.body):
+                if r.get('kind') == 'ReturnStmt' and order[id(r)] < order[id(call)]:
+                    y, in_lambda = r, False
+                    while id(y) in parent:
+                        y = parent[id(y)]
+                        if y.get('kind') == 'LambdaExpr':
+                            in_lambda = True
+                    if not in_lambda:
+                        why = 'a return statement at %s precedes the call' % locstr(r)
+                        break
+        if why is None:
+            chk.ok(rid, '%s hands the library to the validator unconditionally' % short, locstr(call))
+        else:
+            chk.violation(rid, '%s|validator call can be skipped' % short, locstr(call),
+                          '%s: %s: verify() can return normally without having examined the library as it is now' % (
+                              short, why))
     if n < 2:
         raise AnalysisBroken('%s: fewer than two calls of a validator found (%d)' % (rid, n))
 
 
 def _entry(prog, chk, V4):
     """database::verify -> implementation -> make_schema_creator_validator(
-    stored schema)->verify(db) for both generations."""
-    found = 0
-    for f in prog.functions.values():
-        if f.is_pattern or f.body is None or not prog.in_repo(f.file):
-            continue
-        uses = False
-        for n in walk(f.body):
+    stored schema)->verify(db) for both generations (the factory call and the validator call in the
+    implementation itself or in a helper it hands the library to)."""
+    vc = validator_calls(prog, 'verify')
+
+    def uses_factory(g):
+        for n in walk(g.body):
             if n.get('kind') == 'CallExpr':
-                d, q, _, _ = prog.resolve_callee(f.tu, n)
+                d, q, _, _ = prog.resolve_callee(g.tu, n)
                 if q == schemas.NS + 'make_schema_creator_validator':
-                    uses = True
-        if not uses:
+                    return True
+        return False
+
+    found = 0
+    done = set()
+    for f, call, t in vc.top_sites():
+        if f.key in done:
             continue
-        ver = [n for n in walk(f.body) if n.get('kind') == 'CXXMemberCallExpr'
-               and strip(children(n)[0]).get('name') == 'verify']
-        if ver:
+        done.add(f.key)
+        if vc.reaches(f, uses_factory):
             found += 1
             chk.analysed(f)
             chk.ok(V4, '%s verifies through the factory validator' % f.qualname.replace('djinterop::engine::', ''),
